@@ -520,6 +520,9 @@ def runLine (line : String) : String :=
             | _, _ => r)
          | _ => r
        let base := showSh (Bespoke.shParse nm args)
+       -- in every `portable` state the mode-following separated spelling must parse alike
+       let viaM := showSh (Bespoke.shParse nm (match args with | a0 :: r => a0 :: Bespoke.separateMsh nm false r | [] => []))
+       if viaM ≠ base then base ++ "\t" ++ s!"FAIL:mode-separated-spelling-gives {viaM}" else
        let alt := showSh (Bespoke.shParse nm (match args with | a0 :: r => a0 :: eqSplit r | [] => []))
        if alt ≠ base && !byDesign alt && !byDesign base then base ++ "\t" ++ s!"FAIL:`--name ARG`-spelling-gives {alt}"
        else specCompare false base (showSh (Bespoke.shParse nm (match args with | a0 :: r => a0 :: Bespoke.separateSO false r | [] => [])))
